@@ -299,6 +299,27 @@ def decode_rerun(mdl_a, mdl_b, log, how, mode="scalar"):
     return M.call(lambda: (list(tr["hmm_inference"]), list(tr["hmm_cost"])))
 
 
+def decode_on_track(mdl, tr, log=False):
+    """estimate() of a fresh HMM for mdl on the given track object (which carries the 'sym' feature)."""
+    from tracklib.algo.dynamics import HMM
+
+    def S(track, k):
+        return mdl.states[k]
+
+    def Qf(s1, s2, k, track):
+        v = mdl.Q(s1, s2, k)
+        return math.log(v + FLOOR) if log else v
+
+    def Pf(s, y, k, track):
+        v = mdl.P(s, _sym(y), k)
+        return math.log(v + FLOOR) if log else v
+    h = HMM(S, Qf, Pf, log=log, stationarity=mdl.stationary)
+    r = M.call(h.estimate, tr, "sym", mode=MODE_NAMES["scalar"], verbose=0)
+    if M.is_raised(r):
+        return r
+    return M.call(lambda: (list(tr["hmm_inference"]), list(tr["hmm_cost"])))
+
+
 def judge(mdl, out, p, q, best, ctx, tag):
     """Compare one decoding with the oracle.  None or a witness dict."""
     T = len(mdl.states)
@@ -467,8 +488,10 @@ def _value(rng, fam):
         u = rng.random()
         if u < 0.25:
             return float(rng.choice([0, -1, -3, -100, -690, -691, -700, -750, -800, -1000, -2000, 2, 3]))
-        if u < 0.5:
+        if u < 0.45:
             return -float(rng.randrange(650, 1200))
+        if u < 0.7:
+            return -float(rng.randrange(0, 10000))        # step costs of thousands (squared distances over variances)
         return -rng.randrange(0, 4000) / 4.0
     if fam == "three":
         return rng.choice(THREE)
@@ -748,6 +771,36 @@ def run_rnd(case, ctx):
                 cls.append("history_rerun")
                 if w is not None:
                     w.update({"first_run_states": states, "second_run_states": states2})
+    if w is None and T >= 2 and int(sig[4:8], 16) % 3 == 0:
+        # derived objects: two portions of one parent track (extracts share the parent's observation objects) are
+        # decoded one after the other, each with the part of the model that concerns it
+        parent = gen.make_track([(float(case["obs"][k]), float(k), 0.0) for k in range(T)])
+        parent.createAnalyticalFeature("sym", [float(v) for v in case["obs"]])
+        cut = 1 + int(sig[8:12], 16) % (T - 1)
+        parts = [(0, cut - 1), (cut, T - 1)]
+        if int(sig[12:14], 16) % 2:
+            parts.reverse()
+        for (i0, i1) in parts:
+            sub = M.call(parent.extract, i0, i1)
+            if M.is_raised(sub):
+                break
+            st = states[i0:i1 + 1]
+            ob = case["obs"][i0:i1 + 1]
+            Pp = case["P"] if case["stationary"] else case["P"][i0:i1 + 1]
+            Qq = case["Q"] if case["stationary"] else case["Q"][i0:i1 + 1]
+            m2 = model_from_tables(st, ob, case["stationary"], Pp, Qq)
+            c2 = [len(x) for x in st]
+            p2, q2 = m2.tables(Fraction)
+            b2, _nb2, _ = viterbi_exact(p2, q2, c2)
+            if b2 > 0 and neg_log(b2) > 600:
+                continue
+            o2 = decode_on_track(m2, sub, False)
+            ctx.monitor("portions_of_one_parent")
+            w = judge(m2, o2, p2, q2, b2, ctx, "portion %d..%d of a parent track, decoded after/before its sibling" % (i0, i1))
+            if w is not None:
+                w.update({"portion": [i0, i1], "parts_order": parts})
+                break
+        cls.append("history_portions")
     if w is not None:
         w.update({"sequences": nseq, "optimal_sequences": nbest, "counts": counts,
                   "diag_tie_cells": t, "diag_backpointer_not_argmin_cells": b,
